@@ -167,7 +167,7 @@ def number_end_class(crate, pt):
     numeric routine's result is taken as given, every read after it delivers the byte under test."""
     from . import facts as F
     from .sim import Opq
-    tok = crate.variant_names("parse::Token")
+    tm = lex.TokenModel(crate)
     ends = set()
     for d in DOM:
         def hook(S, fn, bb, t, args, path, d=d):
@@ -194,8 +194,8 @@ def number_end_class(crate, pt):
                 if p.end != "return" or not any(e[0] == "number-parsed" for e in p.events):
                     continue
                 rv = p.ret
-                if isinstance(rv, Adt) and rv.variant == 0 and isinstance(rv.fields[0], Adt) and rv.fields[0].variant < len(tok):
-                    outs.add(tok[rv.fields[0].variant])
+                if isinstance(rv, Adt) and rv.variant == 0 and isinstance(rv.fields[0], Adt):
+                    outs.add(tm.kind(rv.fields[0], S, p))
                 elif isinstance(rv, Adt) and rv.variant == 1:
                     outs.add("Err")
                 else:
